@@ -1,6 +1,216 @@
-import MV.Spec.ECS
+import MV.Lemmas.ECSStep
+import MV.Lemmas.ECSSpec
+/-!
+# C14 — ECS entities are generation-safe; queries return exactly the living matches
+
+Model: `MV.Model.ECS` (slot table with intrusive free list and generations, archetype table with the
+`mutation` walk, edges and cache, per-archetype member lists, column storage rows, filters, `world.Get`,
+`Result.Get`), executed by the oracle against the real `ecs.World` on every run.
+Spec: `MV.Spec.ECS` (per entity *name*: living flag, component ids, component values).
+
+All theorems quantify over **every history** `ops : List Op` (component registration, single and bulk
+spawn, annihilation — also of stale, dead and duplicated handles —, re-spawn, reads and writes through
+`world.Get` and `Result.Get`, queries with arbitrary `And/Or/In/NotIn/Equal` filters, iteration),
+starting from `NewWorld()`.  Generations are unbounded naturals (no `uint32` wrap).
+-/
 namespace MV.Props.C14
-open MV.Model.ECS
-/-- placeholder while the machinery is being built (replaced by the real theorems) -/
-theorem C14_placeholder : (run St.new []) = [] := rfl
+open MV.Model.ECS MV.Lemmas.ECS MV.Lemmas.ECSList MV.Lemmas.ECSSlots
+
+/-- the representation invariant holds after every history -/
+theorem C14_represents (ops : List Op) :
+    R (exec St.new ops) (MV.Spec.ECS.exec MV.Spec.ECS.St.new ops) := by
+  suffices ∀ (s : St) (t : MV.Spec.ECS.St), R s t → R (exec s ops) (MV.Spec.ECS.exec t ops) from
+    this _ _ new_R
+  induction ops with
+  | nil => intro s t r; exact r
+  | cons op ops ih => intro s t r; exact ih _ _ (step_refines s t r op).1
+
+/-- **Refinement, all histories**: every answer of the ECS model is the answer of the abstract
+entity/component specification (numeric handles and the reserved zero entity erased). -/
+theorem C14_refines (ops : List Op) :
+    MV.Spec.ECS.eraseAll ops (run St.new ops) = MV.Spec.ECS.run MV.Spec.ECS.St.new ops := by
+  suffices ∀ (s : St) (t : MV.Spec.ECS.St), R s t →
+      MV.Spec.ECS.eraseAll ops (run s ops) = MV.Spec.ECS.run t ops from this _ _ new_R
+  induction ops with
+  | nil => intro s t _; rfl
+  | cons op ops ih =>
+    intro s t r
+    obtain ⟨r1, o1⟩ := step_refines s t r op
+    simp only [run, MV.Spec.ECS.run, MV.Spec.ECS.eraseAll]
+    rw [o1, ih _ _ r1]
+
+/-- **Handles are never reused**: all handles ever returned by `Spawn`/`Spawns` in a history are
+pairwise distinct — in particular the handles of simultaneously living entities, and a re-used slot
+never reproduces the handle of the dead entity that owned it before. -/
+theorem C14_handles_distinct (ops : List Op) : (exec St.new ops).hs.Nodup :=
+  (C14_represents ops).slots.nodup
+
+theorem C14_handles_distinct' (ops : List Op) (i j : Nat) (hi : i < (exec St.new ops).hs.length)
+    (hj : j < (exec St.new ops).hs.length) (hij : i ≠ j) :
+    (exec St.new ops).h i ≠ (exec St.new ops).h j := by
+  intro e
+  exact hij (nth_inj z _ (C14_handles_distinct ops) i j hi hj e)
+
+/-- **`Alive` is the spec's living flag**: an entity is reported alive exactly while the
+specification says it lives … -/
+theorem C14_alive_iff (ops : List Op) (i : Nat) (hi : i < (exec St.new ops).hs.length) :
+    (exec St.new ops).w.alive ((exec St.new ops).h i) =
+      (MV.Spec.ECS.exec MV.Spec.ECS.St.new ops).isLiving i :=
+  alive_eq _ _ _ (C14_represents ops).slots i hi
+
+/-- … which is: living right after its spawn … -/
+theorem C14_spawn_living (t : MV.Spec.ECS.St) (ids : List Nat) (h : validIds t.ncomp ids = true) :
+    (MV.Spec.ECS.step t (.spawn ids)).1.n = t.n + 1 ∧
+      (MV.Spec.ECS.step t (.spawn ids)).1.isLiving t.n = true :=
+  MV.Lemmas.ECSSpec.spawn_living t ids h
+
+/-- … and afterwards living iff it was living and the operation did not annihilate it. -/
+theorem C14_living_step (t : MV.Spec.ECS.St) (op : Op) (i : Nat) (hi : i < t.n) :
+    (MV.Spec.ECS.step t op).1.isLiving i =
+      (t.isLiving i && !(MV.Lemmas.ECSSpec.kills op i && (MV.Spec.ECS.step t op).2 != .badOp)) :=
+  MV.Lemmas.ECSSpec.step_living t op i hi
+
+theorem step_hs_prefix (s : St) (op : Op) : ∃ l, (step s op).1.hs = s.hs ++ l := by
+  cases op <;> simp only [step] <;> (try split) <;> (try split) <;>
+    first
+    | exact ⟨_, rfl⟩
+    | exact ⟨[], (List.append_nil _).symm⟩
+
+theorem exec_hs_prefix (ops : List Op) : ∀ s : St, ∃ l, (exec s ops).hs = s.hs ++ l := by
+  induction ops with
+  | nil => intro s; exact ⟨[], by simp [exec]⟩
+  | cons op ops ih =>
+    intro s
+    obtain ⟨l1, h1⟩ := step_hs_prefix s op
+    obtain ⟨l2, h2⟩ := ih (step s op).1
+    exact ⟨l1 ++ l2, by show (exec (step s op).1 ops).hs = _; rw [h2, h1, List.append_assoc]⟩
+
+theorem exec_append (s : St) (ops ops' : List Op) : exec s (ops ++ ops') = exec (exec s ops) ops' := by
+  simp [exec, List.foldl_append]
+
+theorem spec_exec_append (t : MV.Spec.ECS.St) (ops ops' : List Op) :
+    MV.Spec.ECS.exec t (ops ++ ops') = MV.Spec.ECS.exec (MV.Spec.ECS.exec t ops) ops' := by
+  simp [MV.Spec.ECS.exec, List.foldl_append]
+
+/-- **Never alive again**: once a handle is reported dead it is reported dead after every
+continuation of the history — also after its slot has been reused by new entities. -/
+theorem C14_never_alive_again (ops ops' : List Op) (i : Nat) (hi : i < (exec St.new ops).hs.length)
+    (hd : (exec St.new ops).w.alive ((exec St.new ops).h i) = false) :
+    (exec St.new (ops ++ ops')).w.alive ((exec St.new ops).h i) = false := by
+  rw [C14_alive_iff ops i hi] at hd
+  have hn := (C14_represents ops).n_eq
+  obtain ⟨hi2, hd2⟩ := MV.Lemmas.ECSSpec.exec_dead ops' _ i (by rw [hn]; exact hi) hd
+  rw [← spec_exec_append] at hi2 hd2
+  have hn' := (C14_represents (ops ++ ops')).n_eq
+  rw [hn'] at hi2
+  have := C14_alive_iff (ops ++ ops') i hi2
+  rw [hd2] at this
+  -- the handle of name `i` is the same in the longer history
+  have hsame : (exec St.new (ops ++ ops')).h i = (exec St.new ops).h i := by
+    obtain ⟨l, hl⟩ := exec_hs_prefix ops' (exec St.new ops)
+    rw [exec_append]
+    show nth z (exec (exec St.new ops) ops').hs i = nth z (exec St.new ops).hs i
+    rw [hl, nth_append_left z _ _ i hi]
+  rw [← hsame]; exact this
+
+/-- **Queries are exact** (every filter built from `And/Or/In/NotIn/Equal`): a handed-out handle is
+returned once if its entity is living and its component set satisfies the filter, and not at all
+otherwise … -/
+theorem C14_query_exact (ops : List Op) (f : Filter) (i : Nat) (hi : i < (exec St.new ops).hs.length) :
+    ((exec St.new ops).w.query f).count ((exec St.new ops).h i) =
+      if (MV.Spec.ECS.exec MV.Spec.ECS.St.new ops).isLiving i &&
+          MV.Spec.ECS.sat ((MV.Spec.ECS.exec MV.Spec.ECS.St.new ops).compsOf i) f then 1 else 0 := by
+  have r := C14_represents ops
+  rw [h_eq, query_count _ _ r f]
+  have hmatches : (MV.Spec.ECS.exec MV.Spec.ECS.St.new ops).matches f =
+      (List.range (exec St.new ops).hs.length).filter (fun i =>
+        (MV.Spec.ECS.exec MV.Spec.ECS.St.new ops).isLiving i &&
+          MV.Spec.ECS.sat ((MV.Spec.ECS.exec MV.Spec.ECS.St.new ops).compsOf i) f) := by
+    unfold MV.Spec.ECS.St.matches; rw [r.n_eq]
+  rw [hmatches, count_map_filter_range _ r.slots.nodup _ i hi]
+
+/-- … and nothing else is ever returned: every entity in a query result is a handed-out handle. -/
+theorem C14_query_sound (ops : List Op) (f : Filter) (e : Entity)
+    (he : e ∈ (exec St.new ops).w.query f) : e ∈ (exec St.new ops).hs := by
+  have r := C14_represents ops
+  have := (query_perm _ _ r f).mem_iff.mp he
+  obtain ⟨i, hi, hie⟩ := List.mem_map.mp this
+  unfold MV.Spec.ECS.St.matches at hi
+  rw [List.mem_filter, List.mem_range, r.n_eq] at hi
+  rw [← hie]; exact nth_mem z _ i hi.1
+
+/-- `Result.Count()` is the number of living matches -/
+theorem C14_query_count (ops : List Op) (f : Filter) :
+    (exec St.new ops).w.queryCount f = ((MV.Spec.ECS.exec MV.Spec.ECS.St.new ops).matches f).length :=
+  queryCount_eq _ _ (C14_represents ops) f
+
+/-- **Write/read**: a value written through the pointer `world.Get` returned is what the next read of
+that entity's component returns … -/
+theorem C14_write_read (ops : List Op) (h c : Nat) (v : Int)
+    (hok : (step (exec St.new ops) (.write h c v)).2 = .ok) :
+    (step (step (exec St.new ops) (.write h c v)).1 (.read h c)).2 = .val v := by
+  have r := C14_represents ops
+  obtain ⟨r1, o1⟩ := step_refines _ _ r (.write h c v)
+  obtain ⟨_, o2⟩ := step_refines _ _ r1 (.read h c)
+  simp only [MV.Spec.ECS.erase] at o1 o2
+  rw [o2]; rw [hok] at o1
+  generalize MV.Spec.ECS.exec MV.Spec.ECS.St.new ops = t at *
+  simp only [MV.Spec.ECS.step] at o1 ⊢
+  by_cases hh : h < t.n
+  · simp only [hh, if_true] at o1 ⊢
+    by_cases hc : (t.isLiving h && MV.Spec.ECS.has (t.compsOf h) c) = true
+    · simp only [hc, if_true]
+      have h1 : (t.setData h c v).n = t.n := rfl
+      have h2 : (t.setData h c v).isLiving h = t.isLiving h := rfl
+      have h3 : (t.setData h c v).compsOf h = t.compsOf h := rfl
+      simp only [h1, hh, if_true, h2, h3, hc]
+      simp [MV.Spec.ECS.St.setData]
+    · simp [hc] at o1
+  · simp [hh] at o1
+
+/-- … and **data is isolated**: the write changes no other `(entity, component)` cell. -/
+theorem C14_data_isolated (ops : List Op) (h c h' c' : Nat) (v : Int) (hne : ¬ (h' = h ∧ c' = c)) :
+    (step (step (exec St.new ops) (.write h c v)).1 (.read h' c')).2 =
+      (step (exec St.new ops) (.read h' c')).2 := by
+  have r := C14_represents ops
+  obtain ⟨r1, _⟩ := step_refines _ _ r (.write h c v)
+  obtain ⟨_, o2⟩ := step_refines _ _ r1 (.read h' c')
+  obtain ⟨_, o3⟩ := step_refines _ _ r (.read h' c')
+  simp only [MV.Spec.ECS.erase] at o2 o3
+  rw [o2, o3]
+  generalize MV.Spec.ECS.exec MV.Spec.ECS.St.new ops = t at *
+  simp only [MV.Spec.ECS.step]
+  by_cases hh : h < t.n
+  · simp only [hh, if_true]
+    by_cases hc : (t.isLiving h && MV.Spec.ECS.has (t.compsOf h) c) = true
+    · simp only [hc, if_true]
+      have h1 : (t.setData h c v).n = t.n := rfl
+      have h2 : (t.setData h c v).isLiving h' = t.isLiving h' := rfl
+      have h3 : (t.setData h c v).compsOf h' = t.compsOf h' := rfl
+      have h4 : (t.setData h c v).data h' c' = t.data h' c' := by
+        simp [MV.Spec.ECS.St.setData, hne]
+      simp only [h1, h2, h3, h4]
+      by_cases hh' : h' < t.n
+      · simp only [hh', if_true]
+      · simp only [hh', if_false]
+    · simp only [hc, Bool.false_eq_true, if_false]
+  · simp only [hh, if_false]
+
+/-! ## non-vacuity: concrete histories through every mechanism
+
+slot reuse with a bumped generation, stale and double annihilation, multi-component archetypes reached
+in different id orders, the component-less archetype, row reuse with cleared cells, filters of all
+five shapes. -/
+
+example : run St.new [.reg, .reg, .spawn [1, 2], .spawn [2, 1], .write 0 2 7, .kill 0, .kill 0, .spawn [1],
+      .alive 0, .alive 2, .read 1 2, .read 0 2, .spawn [], .query (.eq []), .query (.isIn [1]),
+      .query (.or [.eq [], .and [.isIn [2], .notIn [7]]]), .qiter 2 (.isIn [2])]
+    = [.nat 1, .nat 2, .ent ⟨1, 0⟩, .ent ⟨2, 0⟩, .ok, .ok, .ok, .ent ⟨1, 1⟩,
+       .bool false, .bool true, .val 0, .nil, .ent ⟨3, 0⟩, .qres 1 [3], .qres 2 [1, 2],
+       .qres 2 [1, 3], .iter [(1, some 0)]] := by decide
+
+example : MV.Spec.ECS.run MV.Spec.ECS.St.new [.reg, .spawn [1], .write 0 1 5, .kill 0, .spawn [1], .read 1 1,
+      .read 0 1, .query (.isIn [1])]
+    = [.nat 1, .any, .ok, .ok, .any, .val 0, .nil, .qres 1 [1]] := by decide
+
 end MV.Props.C14
